@@ -692,9 +692,11 @@ func judgeInvalid(op opID, t tree, r opResult, rootAfter map[string]bool) []verd
 	rejected := r.err != nil && commonerrors.Any(r.err, commonerrors.ErrInvalid)
 	switch {
 	case !rejected:
-		return []verdict{{core: fmt.Sprintf("op=%s:clause=invalid-pattern-not-rejected:target=%s:touched=%s:err=%s", opNames[op], targetShape(t), yn[touched], errKind(r.err)), clause: "invalid-pattern-not-rejected", entry: "."}}
+		// the shape of the target (file / empty directory / directory) is kept in the stored case, not in the signature:
+		// one cause (a call path that never compiles the patterns) shows on several shapes
+		return []verdict{{core: fmt.Sprintf("op=%s:clause=invalid-pattern-not-rejected:touched=%s:err=%s", opNames[op], yn[touched], errKind(r.err)), clause: "invalid-pattern-not-rejected", entry: "target is a " + targetShape(t)}}
 	case touched:
-		return []verdict{{core: fmt.Sprintf("op=%s:clause=invalid-pattern-rejected-after-touching:target=%s", opNames[op], targetShape(t)), clause: "invalid-pattern-rejected-after-touching", entry: "."}}
+		return []verdict{{core: fmt.Sprintf("op=%s:clause=invalid-pattern-rejected-after-touching", opNames[op]), clause: "invalid-pattern-rejected-after-touching", entry: "target is a " + targetShape(t)}}
 	}
 	return nil
 }
